@@ -21,7 +21,7 @@ INFO = {
         "mirror theorems (bfs_*, astar_*) quantify over every enumeration order `ord` and every tie-break sequence `tbs`; the mirror runs instantiate them with the recorded shuffles / draws",
     ],
     "assumptions": ["states are the integers 0..n-1, actions are integers; edge costs are integers (floats in msdm: sums are exact)",
-                    "heuristics of the mirror model are finite integers (cost convention); +inf heuristic values are only judged by the certificate",
+                    "the A* theorems are for finite integer heuristics (cost convention); with +inf heuristic values (exact heuristic on dead states) results are judged by the certificate, and the mirror (keys in Z+{inf}, stale-node skip) is compared without an optimality theorem",
                     "BFS queue / visited entries of the mirror carry a ghost depth that the control flow never reads"],
 }
 
@@ -34,7 +34,10 @@ Definition chk_a succs goals start pa :=
   let G := graph_of succs goals in (wf_graphb G, cert_clauses G start pa).
 Definition chk_b succs goals start pb :=
   let G := graph_of succs goals in (wf_graphb G, bfs_cert_clauses G start pb).
-Definition mir_a succs goals start orders hs tbs :=
+Definition mir_a succs goals start orders hs tbs :=      (* finite heuristic: the form the theorems are stated for *)
+  let G := graph_of succs goals in let h := fun s => Some (hz_of hs s) in
+  (consistentb G h, astar G start (ord_of orders) h tbs).
+Definition mir_ai succs goals start orders hs tbs :=     (* heuristic with +inf entries (None) *)
   let G := graph_of succs goals in (consistentb G (h_of hs), astar G start (ord_of orders) (h_of hs) tbs).
 Definition mir_b succs goals start orders := bfs (graph_of succs goals) start (ord_of orders).
 Definition reads := (from_mdp_read (DDet 1), from_mdp_read (DDict 1), from_mdp_read (DUnif 1)).
@@ -280,7 +283,8 @@ def run(ctx):
             if "error" in out:
                 et = out["error"].split(":")[0]
                 if "dict" in kinds and et == "TypeError" and "dict_keys" in out["error"]:
-                    # the clause "however its single-outcome distributions are represented" fails (from_mdp_repr_refuted)
+                    # the clause "however its single-outcome distributions are represented" fails
+                    # (theorem from_mdp_repr holds for the model of the repaired code: the code has fallen behind it)
                     n_dict_err += 1
                     if "dict" not in reported_once:
                         reported_once.add("dict")
@@ -319,9 +323,13 @@ def run(ctx):
             if alg == "bfs":
                 terms.append("mir_b %s %s" % (gt, coqlist(natlist(o) for o in out["shuffles"])))
                 meta.append(("mir", i, alg))
-            elif "inf" not in case["h"]:
+            else:
                 tb = {"lifo": "tbs_lifo", "fifo": "tbs_fifo"}.get(case["tie"]) or "(tbs_of %s)" % zlist(out["randoms"])
-                terms.append("mir_a %s %s %s %s" % (gt, coqlist(natlist(o) for o in out["shuffles"]), zlist(case["h"]), tb))
+                if "inf" in case["h"]:       # +inf keys: exercises the stale-node skip of the loop (no optimality theorem; certificate gates)
+                    hs = coqlist("None" if x == "inf" else "(Some %s)" % zlit(x) for x in case["h"])
+                    terms.append("mir_ai %s %s %s %s" % (gt, coqlist(natlist(o) for o in out["shuffles"]), hs, tb))
+                else:
+                    terms.append("mir_a %s %s %s %s" % (gt, coqlist(natlist(o) for o in out["shuffles"]), zlist(case["h"]), tb))
                 meta.append(("mir", i, alg))
 
     vals = ctx.coq(PRE, terms, shard=40 if tier == "quick" else 150)
